@@ -307,7 +307,12 @@ SliceEv(e) ==
       g == gs[h]
       P(f, t, a) == PredHolds(e.p, f, t, a)
   IN
-  IF void \/ div \/ IsNull(g) \/ ~SliceOk(g, e.v, P) THEN Voided
+  IF void \/ div \/ IsNull(g) THEN Voided
+  ELSE IF ~SliceOk(g, e.v, P) THEN
+     \* outside the domain of C13 (more than 14 reachable vertices, a dangling edge, ...): this slice is not judged and
+     \* its result is unknown to the reference; the rest of the trace goes on
+     [Cur EXCEPT !.gs = [gs EXCEPT ![d] = NullG], !.lastobs = NewObs(e), !.lastev = [op |-> e.op, ret |-> e.ret],
+                 !.twin = [twin EXCEPT ![d] = [of |-> -1, kind |-> "none"]]]
   ELSE
   LET ok == e.ret = "ok" /\ HasObs(e, d) /\ ~Broken(ObsOf(e, d))
       od == ObsOf(e, d)
